@@ -149,7 +149,13 @@ class DistributedPerLayerOptimizer(DPOptimizer):
     def _ddp_per_layer_hook(
         self, p: nn.Parameter, max_grad_norm: float, _: torch.Tensor
     ):
-        _clip_and_accumulate_parameter(p, max_grad_norm)
+        # the per-layer bounds follow max_grad_norm (their joint norm, which scales the
+        # noise) when it is changed after construction, e.g. by a clipping scheduler
+        scale = (
+            self.max_grad_norm
+            / torch.norm(torch.Tensor(self.max_grad_norms), p=2).item()
+        )
+        _clip_and_accumulate_parameter(p, max_grad_norm * scale)
         # Equivalent ot _check_skip_next_step but without popping because it has to be done for every parameter p
         if self._check_skip_next_step(pop_next=False):
             return
